@@ -206,6 +206,11 @@ func checkC01(c *Ctx) {
 			c.ok("C01.table", what, "both return "+a, p.fnPos(es))
 		}
 	}
+	// every way of obtaining a key object yields one with all the fields its operation reads
+	c.ctorRule(p, "C01.codec", "kem/frodo/frodo640shake", "PublicKey", "EncapsulateTo")
+	c.ctorRule(p, "C01.codec", "kem/frodo/frodo640shake", "PrivateKey", "DecapsulateTo")
+	c.ctorRule(p, "C01.codec", "kem/xwing", "PublicKey", "EncapsulateTo")
+	c.ctorRule(p, "C01.codec", "kem/xwing", "PrivateKey", "DecapsulateTo")
 	// no bit of a received share or ciphertext is cleared before it is bound into the secret (the masked bits
 	// of X25519 are exempt from the DH only, not from the hash)
 	c.maskRule(p, "C01.bind", "no bit of the received ciphertext is cleared before it is hashed into the X-Wing secret", p.Func("kem/xwing", "PrivateKey", "DecapsulateTo"))
